@@ -123,18 +123,65 @@ theorem gcm_wrong_password (A : AEAD) (pw blob : Bytes)
     · rfl
   simp only [gcmDecrypt, gcmDecryptF, hnew, h2, Option.map_none]
 
+/-- one record of the re-encryption loop: address and well-formedness are kept; a record with a non-empty `Addr`
+whose key (of a supported length) decrypted under the old password decrypts under the new one to the same key. -/
+theorem reenc_account_preserves (C : BlockCipher) (old new iv : Bytes) (a a' : Acct) (hiv : iv.length = 16)
+    (hr : reencAcct C old new iv a = .ok a') :
+    a'.addr = a.addr ∧ a'.addrOk = a.addrOk ∧
+    ∀ k : Bytes, cbcDecrypt C old a.blob = .ok k → (k.length = 32 ∨ k.length = 64) → a.addrOk = true →
+      cbcDecrypt C new a'.blob = .ok k := by
+  simp only [reencAcct] at hr
+  split at hr
+  · rename_i he
+    simp only [Outcome.ok.injEq] at hr
+    subst hr
+    refine ⟨rfl, rfl, ?_⟩
+    intro k hk hkl _
+    -- an empty record decrypts (legacy branch) to the empty key, not a supported length
+    have : a.blob = [] := by simpa using he
+    rw [this] at hk
+    simp [cbcDecrypt, cbcDecryptF, isNewFormat, cbcDecN] at hk
+    rw [hk] at hkl
+    simp at hkl
+  · split at hr
+    · simp at hr
+    · rename_i k0 hk0
+      split at hr
+      · simp at hr
+      · rename_i b hb
+        split at hr
+        · simp only [Outcome.ok.injEq] at hr
+          subst hr
+          refine ⟨rfl, rfl, ?_⟩
+          intro k hk hkl _
+          rw [hk0] at hk
+          simp only [Outcome.ok.injEq] at hk
+          subst hk
+          obtain ⟨blob, hb', hd⟩ := cbc_roundtrip C new iv k0 hiv hkl
+          rw [hb] at hb'
+          simp only [Outcome.ok.injEq] at hb'
+          subst hb'
+          simp [cbcDecrypt, hd]
+        · rename_i hbad
+          simp only [Outcome.ok.injEq] at hr
+          subst hr
+          refine ⟨rfl, rfl, ?_⟩
+          intro k _ _ hok
+          exact absurd hok hbad
+
 /-- **A successful password change preserves every secret**: the password becomes `new`; the seed that
 decrypted under the old password decrypts under the new one to the same bytes; the account list keeps its
-addresses and order; every stored key that decrypted under the old password to a key of a supported length
-decrypts under the new password to the same key. -/
+addresses and order; every stored key (record with a non-empty `Addr`, as every record the wallet writes) that
+decrypted under the old password to a key of a supported length decrypts under the new password to the same key. -/
 theorem setpasswd_preserves (C : BlockCipher) (A : AEAD) (old new nonce : Bytes) (ivs : Nat → Bytes)
     (writeOk : Bool) (s s' : Store) (hn : nonce.length = 12) (hiv : ∀ i, (ivs i).length = 16)
     (h : setPasswd C A old new nonce ivs writeOk s = (s', .ok)) :
     s.pw = old ∧ s'.pw = new ∧
-    (∃ sd, gcmDecrypt A old s.seed = some sd ∧ gcmDecrypt A new s'.seed = some sd) ∧
+    (∃ sd, gcmDecrypt A old s.seed = some sd ∧ sd ≠ [] ∧ gcmDecrypt A new s'.seed = some sd) ∧
     s'.accts.length = s.accts.length ∧
     (∀ (j : Nat) (a : Acct), s.accts[j]? = some a → ∃ a' : Acct, s'.accts[j]? = some a' ∧ a'.addr = a.addr ∧
-      ∀ k : Bytes, cbcDecrypt C old a.blob = .ok k → (k.length = 32 ∨ k.length = 64) →
+      a'.addrOk = a.addrOk ∧
+      ∀ k : Bytes, cbcDecrypt C old a.blob = .ok k → (k.length = 32 ∨ k.length = 64) → a.addrOk = true →
         cbcDecrypt C new a'.blob = .ok k) := by
   simp only [setPasswd] at h
   split at h
@@ -147,43 +194,20 @@ theorem setpasswd_preserves (C : BlockCipher) (A : AEAD) (old new nonce : Bytes)
       · rename_i sd hsd
         split at h
         · simp at h
-        · split at h
+        · rename_i hne
+          split at h
           · simp at h
           · rename_i accts' hre
             split at h
             · simp only [Prod.mk.injEq, and_true] at h
               subst h
               have hspec := reencAll_spec C old new ivs s.accts 0 accts' hre
-              refine ⟨by simpa [eq_comm] using hpw, rfl, ⟨sd, hsd, ?_⟩, hspec.1, ?_⟩
+              refine ⟨by simpa [eq_comm] using hpw, rfl, ⟨sd, hsd, by simpa using hne, ?_⟩, hspec.1, ?_⟩
               · simp [gcmDecrypt, gcm_roundtrip A new nonce sd hn]
               · intro j a hj
                 obtain ⟨a', ha', hr⟩ := hspec.2 j a hj
-                refine ⟨a', ha', ?_, ?_⟩
-                · simp only [reencAcct] at hr
-                  split at hr
-                  · simp only [Outcome.ok.injEq] at hr; rw [← hr]
-                  · split at hr
-                    · simp at hr
-                    · split at hr
-                      · simp at hr
-                      · simp only [Outcome.ok.injEq] at hr; rw [← hr]
-                · intro k hk hkl
-                  simp only [reencAcct] at hr
-                  split at hr
-                  · rename_i he
-                    -- an empty record decrypts (legacy branch) to the empty key, not a supported length
-                    have : a.blob = [] := by simpa using he
-                    rw [this] at hk
-                    simp [cbcDecrypt, cbcDecryptF, isNewFormat, cbcDecN] at hk
-                    rw [hk] at hkl
-                    simp at hkl
-                  · rw [hk] at hr
-                    simp only at hr
-                    obtain ⟨blob, hb, hd⟩ := cbc_roundtrip C new (ivs (0 + j)) k (hiv _) hkl
-                    rw [hb] at hr
-                    simp only [Outcome.ok.injEq] at hr
-                    rw [← hr]
-                    simp [cbcDecrypt, hd]
+                have := reenc_account_preserves C old new (ivs (0 + j)) a a' (hiv _) hr
+                exact ⟨a', ha', this.1, this.2.1, this.2.2⟩
             · simp at h
 
 /-- **A failed password change changes nothing** (wrong old password, invalid new password, undecryptable
@@ -210,9 +234,89 @@ example :
     let iv : Bytes := List.replicate 16 3
     let b1 := match cbcEncrypt C old iv k1 with | .ok b => b | .panic => []
     let b2 := match cbcLegacyEncrypt C old k2 with | .ok b => b | .panic => []
-    let s : Store := { pw := old, seed := gcmLegacyEncrypt A old sd, accts := [⟨1, b1⟩, ⟨2, b2⟩] }
+    let s : Store := { pw := old, seed := gcmLegacyEncrypt A old sd, accts := [⟨1, b1, true⟩, ⟨2, b2, true⟩] }
     let r := setPasswd C A old new (List.replicate 12 5) (fun _ => iv) true s
     r.2 = .ok ∧ gcmDecrypt A new r.1.seed = some sd ∧
       (r.1.accts.map (fun a => cbcDecrypt C new a.blob)) = [.ok k1, .ok k2] := by decide
+
+/-- every secret of the store is recoverable under the store's CURRENT password: the seed decrypts to `sd`, the
+j-th account record is well-formed and decrypts to the j-th key `keys[j]` (of a supported length). -/
+def Recoverable (C : BlockCipher) (A : AEAD) (s : Store) (sd : Bytes) (keys : List Bytes) : Prop :=
+  gcmDecrypt A s.pw s.seed = some sd ∧ sd ≠ [] ∧ s.accts.length = keys.length ∧
+  ∀ (j : Nat) (a : Acct), s.accts[j]? = some a →
+    a.addrOk = true ∧ ∃ k : Bytes, keys[j]? = some k ∧ (k.length = 32 ∨ k.length = 64) ∧ cbcDecrypt C s.pw a.blob = .ok k
+
+/-- one password change, successful or not, keeps every secret recoverable under the current password. -/
+theorem setpasswd_keeps_recoverable (C : BlockCipher) (A : AEAD) (r : Req) (s : Store) (sd : Bytes) (keys : List Bytes)
+    (hn : r.nonce.length = 12) (hiv : ∀ i, (r.ivs i).length = 16) (hrec : Recoverable C A s sd keys) :
+    Recoverable C A (setPasswd C A r.old r.new r.nonce r.ivs r.writeOk s).1 sd keys := by
+  cases hsp : setPasswd C A r.old r.new r.nonce r.ivs r.writeOk s with
+  | mk s' o =>
+    by_cases ho : o = .ok
+    · subst ho
+      obtain ⟨hold, hnew, ⟨sd', hsd1, _, hsd2⟩, hlen, hacc⟩ :=
+        setpasswd_preserves C A r.old r.new r.nonce r.ivs r.writeOk s s' hn hiv hsp
+      obtain ⟨hs, hne, hl, hk⟩ := hrec
+      rw [hold] at hs hk
+      have : sd' = sd := by rw [hs] at hsd1; exact (Option.some.inj hsd1).symm
+      subst this
+      refine ⟨by simp only [hnew]; exact hsd2, hne, by simp only [hlen, hl], ?_⟩
+      intro j a' ha'
+      have hj : j < s.accts.length := by
+        have := (List.getElem?_eq_some_iff.mp ha').1
+        simpa [hlen] using this
+      obtain ⟨a1, ha1, _, hok, hdec⟩ := hacc j s.accts[j] (List.getElem?_eq_getElem hj)
+      have : a1 = a' := by rw [ha'] at ha1; exact (Option.some.inj ha1).symm
+      subst this
+      obtain ⟨haok, k, hkj, hkl, hkd⟩ := hk j s.accts[j] (List.getElem?_eq_getElem hj)
+      exact ⟨by rw [hok]; exact haok, k, hkj, hkl, by simp only [hnew]; exact hdec k hkd hkl haok⟩
+    · have := setpasswd_failure_unchanged C A r.old r.new r.nonce r.ivs r.writeOk s s' o hsp ho
+      simp only [this]
+      exact hrec
+
+/-- **Histories**: after ANY list of successful and failed password changes (wrong old passwords, invalid new
+ones, failed batch writes, …) the seed and every stored key decrypt under the wallet's current password to the
+same values as before the history. -/
+theorem history_keeps_every_secret (C : BlockCipher) (A : AEAD) (sd : Bytes) (keys : List Bytes) :
+    ∀ (rs : List Req) (s : Store), (∀ r ∈ rs, r.nonce.length = 12 ∧ ∀ i, (r.ivs i).length = 16) →
+      Recoverable C A s sd keys → Recoverable C A (runSetPasswd C A rs s) sd keys
+  | [], s, _, h => h
+  | r :: rs, s, hr, h =>
+    history_keeps_every_secret C A sd keys rs _ (fun x hx => hr x (List.mem_cons_of_mem _ hx))
+      (setpasswd_keeps_recoverable C A r s sd keys (hr r List.mem_cons_self).1 (hr r List.mem_cons_self).2 h)
+
+/-- The well-formedness hypothesis (`addrOk`: non-empty `Addr`, which every record written by the wallet has,
+GetAccountByte refuses anything else) is needed: for a record with an empty `Addr` the error of
+SetWalletAccountInBatch is only logged, the change still succeeds, and that record — left under the old password —
+no longer decrypts to its key under the new one (CBC gives garbage, not an error).  Replayed on the real store by
+the harness (`w.addbad`), on a record injected behind the wallet's back. -/
+theorem malformed_record_is_left_behind :
+    let C := toyCipher
+    let A := nonceTagAead
+    let old : Bytes := [111, 108, 100, 112, 97, 115, 115, 49]
+    let new : Bytes := [110, 101, 119, 112, 97, 115, 115, 50]
+    let k1 : Bytes := List.replicate 32 7
+    let iv : Bytes := List.replicate 16 3
+    let b1 := match cbcEncrypt C old iv k1 with | .ok b => b | .panic => []
+    let s : Store := { pw := old, seed := gcmEncrypt A old (List.replicate 12 5) [1, 2, 3], accts := [⟨1, b1, false⟩] }
+    let r := setPasswd C A old new (List.replicate 12 5) (fun _ => iv) true s
+    r.2 = .ok ∧ r.1.pw = new ∧ cbcDecrypt C old b1 = .ok k1 ∧
+      (r.1.accts.map (fun a => cbcDecrypt C new a.blob == .ok k1)) = [false] := by decide
+
+/-- non-vacuity of `history_keeps_every_secret`: a recoverable store and a history with a failed and a successful change. -/
+example :
+    let C := toyCipher
+    let A := nonceTagAead
+    let p0 : Bytes := [111, 108, 100, 112, 97, 115, 115, 49]
+    let p1 : Bytes := [110, 101, 119, 112, 97, 115, 115, 50]
+    let k1 : Bytes := List.replicate 32 7
+    let iv : Bytes := List.replicate 16 3
+    let b1 := match cbcLegacyEncrypt C p0 k1 with | .ok b => b | .panic => []
+    let s : Store := { pw := p0, seed := gcmLegacyEncrypt A p0 [1, 2, 3, 4, 5, 6, 7, 8, 9, 10, 11, 12, 13, 14], accts := [⟨1, b1, true⟩] }
+    let rs : List Req := [⟨p1, p0, List.replicate 12 5, fun _ => iv, true⟩, ⟨p0, p1, List.replicate 12 5, fun _ => iv, false⟩,
+                          ⟨p0, p1, List.replicate 12 5, fun _ => iv, true⟩]
+    let s' := runSetPasswd C A rs s
+    s'.pw = p1 ∧ gcmDecrypt A s'.pw s'.seed = some [1, 2, 3, 4, 5, 6, 7, 8, 9, 10, 11, 12, 13, 14] ∧
+      s'.accts.map (fun a => cbcDecrypt C s'.pw a.blob) = [.ok k1] := by decide
 
 end C37
